@@ -88,6 +88,16 @@ class Driver:
                     pre.append(itask)
             schd.start_job_submission(pre)
 
+    async def settle_after_restart(self):
+        """Answer the restart poll (from the true job states), run one iteration, and log the restored state."""
+        for cmd in list(self.pool.pending):
+            if cmd.kind == "jobs-poll":
+                self.answer(cmd)
+        r = await self.loop_once()
+        if r is None:
+            TR.emit("restored", sync=instrument.sync_proj(self.schd), db=self.db_readback())
+        return r
+
     def _drain(self):
         for cmd in list(self.pool.pending):
             self.answer(cmd)
@@ -103,7 +113,17 @@ class Driver:
                 acts.append(("launch", cmd.n))
             else:
                 acts.append(("answer", cmd.n))
+        unacked = set()
+        if not self.policy.get("late_submit_callback"):
+            # a jobs-submit command normally returns long before its job finishes: unless the schedule
+            # injects that fault, a job does not take its final step before the callback is delivered
+            for cmd in self.pool.pending:
+                if cmd.kind == "jobs-submit" and cmd.launched:
+                    unacked.update(self._parse_dir(d) for d in cmd.job_dirs())
         for key in self.world.can_step():
+            j = self.world.jobs[key]
+            if key in unacked and len(j.script) <= 1:
+                continue
             acts.append(("job", key))
         seen = set()
         for i, m in enumerate(self.net):
@@ -247,6 +267,10 @@ class Driver:
                 [[n, TR.pt(c), _flows(f), st, bool(h)] for c, n, f, st, h in
                  cur.execute("SELECT cycle, name, flow_nums, status, is_held FROM task_pool")],
                 key=lambda r: (r[1], r[0], r[2]))
+            out["task_states"] = sorted(
+                [[n, TR.pt(c), int(sn or 0), st] for n, c, sn, st in
+                 cur.execute("SELECT name, cycle, submit_num, status FROM task_states")],
+                key=lambda r: (r[1], r[0], r[2]))
         finally:
             con.close()
         return out
@@ -255,6 +279,7 @@ class Driver:
         """The scheduler process dies: no shutdown code runs."""
         from cylc.flow import workflow_files
         schd = self.schd
+        TR.ctx = []
         TR.emit("crash")
         try:
             schd.workflow_db_mgr.pri_dao.close()
@@ -270,8 +295,21 @@ class Driver:
         except OSError:
             pass
         # commands in flight are lost; launched jobs live on
-        self.pool.pending = []
+        if envmod.FakePool.current is not None:
+            envmod.FakePool.current.pending = []
         self.schd = None
+
+    async def cmd(self, name, **kw):
+        """Run a scheduler command the way the resolvers do (validate, then execute)."""
+        from cylc.flow import commands
+        TR.emit("cmd", name=name, args={k: (v if isinstance(v, (int, str, bool, type(None))) else list(v)) for k, v in kw.items()})
+        TR.ctx.append("cmd:" + name)
+        try:
+            ret = await commands.run_cmd(commands.COMMANDS[name](self.schd, **kw))
+        finally:
+            TR.ctx.pop()
+        TR.emit("cmd_done", name=name, sync=instrument.sync_proj(self.schd))
+        return ret
 
     async def stop_cmd(self, mode):
         from cylc.flow import commands
@@ -328,6 +366,128 @@ async def run_to_end(drv: Driver, hooks=None):
     res.jobs = {f"{k[0]}/{k[1]}/{k[2]}": {"phase": j.phase, "emitted": list(j.emitted)} for k, j in drv.world.jobs.items()}
     return res
 
+async def run_plan(drv: Driver, plan: dict):
+    """Like run_to_end, plus: commands at given iterations, a stop request followed by a restart, and an
+    abrupt kill (at an emitted event or inside a DB transaction) followed by a restart.
+
+    plan = {cmds: [(iter, name, kwargs)], stop: {iter, mode, restart, sync}, kill: {kind: emit|stmt, n, down_steps}}
+    """
+    from .instrument import Killed
+    rng = drv.rng
+    res = drv.result
+    cmds = sorted(plan.get("cmds", []), key=lambda c: c[0])
+    stop = plan.get("stop")
+    kill = plan.get("kill")
+    if kill:
+        if kill["kind"] == "emit":
+            TR.kill_emit = kill["n"]
+        else:
+            TR.stmt_count = 0
+            TR.kill_stmt = kill["n"]
+    iters = 0
+    quiet = 0
+    stop_requested = False
+    try:
+        try:
+            await drv.boot()
+        except Killed:
+            try:
+                await _crash_and_reboot(drv, kill)
+            except RestartFailed:
+                res.end = "restart_failed"
+        while res.end is None:
+            iters += 1
+            n_before = len(TR.events)
+            try:
+                while cmds and cmds[0][0] <= iters:
+                    _, name, kw = cmds.pop(0)
+                    await drv.cmd(name, **kw)
+                if stop and not stop_requested and iters >= stop["iter"]:
+                    if stop.get("sync"):
+                        # bring the scheduler's view in line with the job world before stopping
+                        for _ in range(50):
+                            acts = [a for a in drv.enabled_env() if a[0] != "job"]
+                            if not acts:
+                                break
+                            for a in acts:
+                                if a in drv.enabled_env():
+                                    drv.do_env(a)
+                            if await drv.loop_once() is not None:
+                                break
+                    if drv.schd is not None and drv.schd.stop_mode is None:
+                        await drv.stop_cmd(stop["mode"])
+                    stop_requested = True
+                reason = await drv.loop_once()
+                if reason is not None:
+                    if stop_requested and stop and stop.get("restart", True) and reason != "AUTOMATIC":
+                        stop = None
+                        stop_requested = False
+                        drv.net = []          # messages in flight while the scheduler is down are lost
+                        await drv.boot()
+                        await drv.settle_after_restart()
+                        quiet = 0
+                        continue
+                    res.end = "auto" if reason == "AUTOMATIC" else f"stopped:{reason}"
+                    break
+                acts = drv.enabled_env()
+                did = 0
+                while acts and rng.random() < drv.policy["p_env"]:
+                    drv.do_env(rng.choice(acts))
+                    did += 1
+                    acts = drv.enabled_env()
+            except Killed:
+                try:
+                    await _crash_and_reboot(drv, kill)
+                except RestartFailed:
+                    res.end = "restart_failed"
+                    break
+                quiet = 0
+                continue
+            busy = did or any(e["e"] not in ("loop_begin", "loop_end", "rh_compute", "db_commit", "q_release")
+                              for e in TR.events[n_before:])
+            quiet = 0 if (busy or acts) else quiet + 1
+            if quiet >= 3:
+                res.end = "stalled" if drv.schd.is_stalled else "quiescent"
+                TR.emit("quiescent", stalled=bool(drv.schd.is_stalled), sync=instrument.sync_proj(drv.schd))
+                break
+            if iters >= drv.policy["max_iters"]:
+                res.end = "budget"
+                break
+    finally:
+        TR.kill_emit = TR.kill_stmt = None
+        if drv.schd is not None and res.end != "auto" and not (res.end or "").startswith("stopped"):
+            await teardown(drv)
+    res.launches = list(drv.world.launch_log)
+    res.jobs = {f"{k[0]}/{k[1]}/{k[2]}": {"phase": j.phase, "emitted": list(j.emitted)} for k, j in drv.world.jobs.items()}
+    return res
+
+async def _crash_and_reboot(drv, kill):
+    from .instrument import Killed
+    # commands already launched keep running; their results are lost with the process
+    await drv.crash()
+    # jobs go on while the scheduler is down; what they send is lost
+    for _ in range(int((kill or {}).get("down_steps", 0))):
+        keys = drv.world.can_step()
+        if not keys:
+            break
+        k = drv.rng.choice(keys)
+        msg = drv.world.step(k)
+        TR.emit("env_job", job=[k[1], TR.pt(k[0]), k[2]], step=instrument.out_name((msg or "").split("/")[0]), lost=True)
+    drv.net = []
+    try:
+        await drv.boot()
+    except Killed:
+        raise
+    except Exception as exc:
+        # the database left behind by the dead process cannot be restarted from
+        TR.emit("restart_failed", error=f"{type(exc).__name__}: {exc}"[:200])
+        drv.schd = None
+        raise RestartFailed(str(exc)) from None
+    await drv.settle_after_restart()
+
+class RestartFailed(Exception):
+    pass
+
 async def teardown(drv):
     from cylc.flow.scheduler import SchedulerStop
     TR.enabled = False
@@ -339,7 +499,8 @@ async def teardown(drv):
     finally:
         TR.enabled = True
 
-def execute(flow_text, outcome, seed, home, *, policy=None, run_opts=None, runner=run_to_end, hooks=None, name="w"):
+def execute(flow_text, outcome, seed, home, *, policy=None, run_opts=None, runner=run_to_end, hooks=None, name="w",
+            plan=None):
     """Synchronous entry point: returns (RunResult, events)."""
     logging.disable(logging.CRITICAL)
     TR.events = []
@@ -347,6 +508,8 @@ def execute(flow_text, outcome, seed, home, *, policy=None, run_opts=None, runne
     TR.enabled = True
     drv = Driver(flow_text, home, outcome, seed, policy=policy, run_opts=run_opts, name=name)
     async def main():
+        if plan is not None:
+            return await run_plan(drv, plan)
         return await runner(drv, hooks) if hooks is not None else await runner(drv)
     try:
         res = asyncio.run(main())
